@@ -6,6 +6,7 @@ import (
 	"io"
 	"sort"
 	"strings"
+	"sync"
 
 	"github.com/logrange/logrange/pkg/model"
 	"github.com/logrange/logrange/pkg/tmindex"
@@ -18,7 +19,9 @@ import (
 // ---------------------------------------------------------------- cindex stream
 
 type CiOp struct {
-	K     string    `json:"k"` // write | ge | lt | data | info | rebuild | sync
+	K string `json:"k"` // write | ge | lt | data | info | rebuild | rbwrite | sync
+	// rbwrite: RebuildIndex of the chunk over Data is started; while its scan is under way (it holds the chunk's lock) the
+	// write notification First..Last/Mn/Mx arrives; then the scan goes on
 	Cid   int64     `json:"c,omitempty"`
 	First int64     `json:"f,omitempty"`
 	Last  int64     `json:"l,omitempty"`
@@ -35,6 +38,30 @@ type CiChunk struct {
 }
 type CiCase struct {
 	Ops []CiOp `json:"ops"`
+}
+
+// gatedChunk is a memChunk whose first record is delivered to its reader only when the gate is opened: a rebuild
+// scanning it stays inside the scan (holding the chunk info's lock) until then
+type gatedChunk struct {
+	*memChunk
+	entered chan struct{}
+	release chan struct{}
+	once    sync.Once
+}
+type gatedIt struct {
+	memIt
+	g *gatedChunk
+}
+
+func newGatedChunk(id int64, tss []int64) *gatedChunk {
+	return &gatedChunk{memChunk: newMemChunk(id, tss), entered: make(chan struct{}), release: make(chan struct{})}
+}
+func (g *gatedChunk) Iterator() (chunk.Iterator, error) {
+	return &gatedIt{memIt{m: g.memChunk}, g}, nil
+}
+func (i *gatedIt) Get(ctx context.Context) (records.Record, error) {
+	i.g.once.Do(func() { close(i.g.entered); <-i.g.release })
+	return i.memIt.Get(ctx)
 }
 
 // memChunk is a chunk.Chunk over timestamps held in memory (marshalled LogEvents)
@@ -213,6 +240,42 @@ func indexBounds(recs []tmindex.IdxRecord, data []int64) string {
 	return ""
 }
 
+// ciGrowthCase: 3300 chunks get an index root each (one 512-byte block per root, 4097 blocks per storage segment), so
+// the index file is more than 80% full and the next interval added to a tree makes the controller extend the storage
+// (ckiCtrlr.extend: Grow to two segments under exclusive access, new Blocks over the grown file); every tree must be
+// intact afterwards.
+func ciGrowthCase() *CiCase {
+	cc := &CiCase{}
+	const n = 3300
+	probe := func(c int64) {
+		cc.Ops = append(cc.Ops, CiOp{K: "data", Cid: c}, CiOp{K: "info", Cid: c},
+			CiOp{K: "ge", Cid: c, Ts: c*1000 + 5}, CiOp{K: "lt", Cid: c, Ts: c*1000 + 5}, CiOp{K: "ge", Cid: c, Ts: c*1000 + 700})
+	}
+	for c := int64(1); c <= n; c++ {
+		cc.Ops = append(cc.Ops, CiOp{K: "write", Cid: c, First: 0, Last: 9, Mn: c * 1000, Mx: c*1000 + 9})
+	}
+	probe(1)
+	probe(n / 2)
+	probe(n)
+	// the last chunk goes on: every write is far enough from the last index point to add an interval
+	pos := int64(10)
+	for k := int64(0); k < 3; k++ {
+		cc.Ops = append(cc.Ops, CiOp{K: "write", Cid: n, First: pos, Last: pos + 299, Mn: n*1000 + 10 + 300*k, Mx: n*1000 + 309 + 300*k})
+		pos += 300
+	}
+	probe(1)
+	probe(2)
+	probe(n / 2)
+	probe(n - 1)
+	probe(n)
+	for c := int64(n + 1); c <= n+5; c++ {
+		cc.Ops = append(cc.Ops, CiOp{K: "write", Cid: c, First: 0, Last: 299, Mn: c * 1000, Mx: c*1000 + 299})
+		probe(c)
+	}
+	probe(n)
+	return cc
+}
+
 // genCiRebuild: chunks the index learns by SyncChunks (hull from the first and last record, no index), rebuilt by
 // scanning non-monotone data, then questioned; optionally written to afterwards
 func genCiRebuild(r *Rng) *CiCase {
@@ -271,7 +334,8 @@ func genCiRebuild(r *Rng) *CiCase {
 		cks = append(cks, CiChunk{Cid: int64(c), Data: d})
 	}
 	cc.Ops = append(cc.Ops, CiOp{K: "sync", Cks: cks})
-	for _, ck := range cks {
+	extra := int64(0)
+	for ci, ck := range cks {
 		pickTs := func() int64 {
 			if r.Chance(1, 12) {
 				return int64(r.Range(-600, 6000))
@@ -291,7 +355,18 @@ func genCiRebuild(r *Rng) *CiCase {
 		if r.Chance(1, 3) {
 			cc.Ops = append(cc.Ops, CiOp{K: "ge", Cid: ck.Cid, Ts: pickTs()}, CiOp{K: "data", Cid: ck.Cid})
 		}
-		cc.Ops = append(cc.Ops, CiOp{K: "rebuild", Cid: ck.Cid, Data: append([]int64{}, ck.Data...)})
+		if ci == len(cks)-1 && r.Chance(1, 2) {
+			// a write notification for the chunk arrives while the rebuild scans it (and holds its lock): the TryLock of
+			// onWrite fails, only the hull is extended
+			n := r.PickInt(1, 10, 251)
+			tss := spikyData(r, n, &cur, len(ck.Data))
+			mn, mx := minmax(tss)
+			cc.Ops = append(cc.Ops, CiOp{K: "rbwrite", Cid: ck.Cid, Data: append([]int64{}, ck.Data...),
+				First: int64(len(ck.Data)), Last: int64(len(ck.Data) + n - 1), Mn: mn, Mx: mx})
+			extra = int64(n)
+		} else {
+			cc.Ops = append(cc.Ops, CiOp{K: "rebuild", Cid: ck.Cid, Data: append([]int64{}, ck.Data...)})
+		}
 		cc.Ops = append(cc.Ops, CiOp{K: "data", Cid: ck.Cid}, CiOp{K: "info", Cid: ck.Cid})
 		for j := 0; j < 8; j++ {
 			cc.Ops = append(cc.Ops, CiOp{K: "ge", Cid: ck.Cid, Ts: pickTs()}, CiOp{K: "lt", Cid: ck.Cid, Ts: pickTs()})
@@ -299,7 +374,7 @@ func genCiRebuild(r *Rng) *CiCase {
 	}
 	// the last chunk goes on being written after its rebuild
 	last := cks[len(cks)-1]
-	pos := int64(len(last.Data))
+	pos := int64(len(last.Data)) + extra
 	for k := r.Range(0, 3); k > 0; k-- {
 		n := r.PickInt(1, 10, 250, 251)
 		tss := spikyData(r, n, &cur, int(pos))
@@ -462,6 +537,7 @@ func runCi(rp Replay) (*Case, error) {
 	hull := map[int64][2]int64{}
 	var viol *Violation
 	rebuilds := 0
+	lockedWrites := 0
 	for _, op := range rp.Ci.Ops {
 		switch op.K {
 		case "write":
@@ -524,6 +600,36 @@ func runCi(rp Replay) (*Case, error) {
 					viol = &Violation{Class: "rebuilt-index-hull", Detail: fmt.Sprintf("chunk %d rebuilt by scanning: hull [%d,%d] does not contain the timestamps [%d,%d] scanned or announced by OnWrite", op.Cid, ri.MinTs, ri.MaxTs, mn, mx)}
 				}
 			}
+		case "rbwrite":
+			g := newGatedChunk(op.Cid, op.Data)
+			done := make(chan struct{})
+			go func() { ti.RebuildIndex(ctx, src, g, false); close(done) }()
+			scanning := false
+			select {
+			case <-g.entered:
+				scanning = true
+			case <-done: // nothing to scan (the index is alive, the chunk unknown or empty)
+			}
+			e := ti.OnWrite(src, uint32(op.First), uint32(op.Last), tmindex.RecordsInfo{Id: chunk.Id(op.Cid), MinTs: op.Mn, MaxTs: op.Mx})
+			var wobs string
+			switch e {
+			case nil:
+				wobs = "(BWrite WOk)"
+			case tmindex.ErrTmIndexCorrupted:
+				wobs = "(BWrite WCorrupted)"
+			default:
+				return nil, fmt.Errorf("OnWrite: unexpected error %v", e)
+			}
+			if scanning {
+				close(g.release)
+				<-done
+				ops = append(ops, GApp("COnWriteSkip", GZ(op.First), GZ(op.Last), GZ(op.Cid), GZ(op.Mn), GZ(op.Mx)), GApp("CRebuild", GZ(op.Cid), gRle(op.Data)))
+				obs = append(obs, wobs, "BUnit")
+				lockedWrites++
+			} else {
+				ops = append(ops, GApp("CRebuild", GZ(op.Cid), gRle(op.Data)), GApp("COnWrite", GZ(op.First), GZ(op.Last), GZ(op.Cid), GZ(op.Mn), GZ(op.Mx)))
+				obs = append(obs, "BUnit", wobs)
+			}
 		case "sync":
 			var cks chunk.Chunks
 			var its []string
@@ -545,6 +651,6 @@ func runCi(rp Replay) (*Case, error) {
 		NonTrivial: nontriv,
 		Oracle:     viol,
 		Stream:     "ci",
-		Tags:       []string{fmt.Sprintf("ci-scanned-rebuilds:%v", rebuilds > 0)},
+		Tags:       []string{fmt.Sprintf("ci-scanned-rebuilds:%v", rebuilds > 0), fmt.Sprintf("ci-write-during-rebuild:%v", lockedWrites > 0)},
 	}, nil
 }
